@@ -87,16 +87,41 @@ fn main() {
     println!("REPLAY: no violation reproduced");
 }
 ''',
-    # byte buffers: feed to the public parser
+    # byte buffers: feed every prefix to the public parser and compare with the framing reference (X.690 8.1.3)
     'parse': '''
 extern crate lber;
+// Some(k): the header is complete and announces k bytes in total; None: the header itself is incomplete
+fn need(b: &[u8]) -> Option<u128> {
+    let n = b.len();
+    if n < 2 { return None; }
+    if b[1] < 128 { return Some(2 + b[1] as u128); }
+    let k = (b[1] - 128) as usize;
+    if n < 2 + k { return None; }
+    let mut v: u128 = 0;
+    for x in &b[2..2 + k] { v = (v << 8) | *x as u128; if v > u64::MAX as u128 { v &= u64::MAX as u128; } }
+    Some(2 + k as u128 + v)
+}
 fn main() {
     let cands: Vec<Vec<u8>> = vec![{BYTES}];
-    for b in cands {
-        let r = std::panic::catch_unwind(|| format!("{:?}", lber::parse::parse_tag(&b)));
-        println!("parse_tag({:02x?}) = {:?}", b, r);
+    let mut bad = 0;
+    for full in cands {
+        for n in 0..=full.len() {
+            let b = &full[..n];
+            let r = std::panic::catch_unwind(|| lber::parse::parse_tag(b).map(|(rest, t)| (rest.len(), format!("{:?}", t))).map_err(|e| match e { lber::Err::Incomplete(_) => "Incomplete", lber::Err::Error(_) => "Error", lber::Err::Failure(_) => "Failure" }));
+            let verdict = match (&r, need(b)) {
+                (Err(_), _) => { bad += 1; "PANIC" }
+                (Ok(Err("Incomplete")), Some(k)) if n as u128 >= k => { bad += 1; "WRONG: complete frame answered Incomplete" }
+                (Ok(Ok(_)), Some(k)) if (n as u128) < k => { bad += 1; "WRONG: delivered before the last byte" }
+                (Ok(Err(e)), Some(k)) if (n as u128) < k && *e != "Incomplete" => { bad += 1; "WRONG: incomplete frame rejected instead of awaited" }
+                (Ok(Err(e)), None) if *e != "Incomplete" => { bad += 1; "WRONG: incomplete header rejected instead of awaited" }
+                (Ok(Ok(_)), None) => { bad += 1; "WRONG: delivered before the header was complete" }
+                _ => "ok",
+            };
+            println!("parse_tag({:02x?}) = {:?}  [{}]", b, r, verdict);
+        }
     }
-    println!("REPLAY: outputs above are from the real lber::parse::parse_tag");
+    if bad > 0 { println!("REPLAY: property violated on the real code"); std::process::exit(1); }
+    println!("REPLAY: no violation reproduced");
 }
 ''',
 }
@@ -112,6 +137,10 @@ def _ints(vals, width):
 
 def run_replay_program(kind, vals, repo):
     """build a tiny crate depending on the real lber (copied from repo's working tree), run it."""
+    prefix = []
+    if kind == 'lenhdr':
+        # the harness buffer starts at the length octets: put an OCTET STRING identifier in front
+        kind, prefix = 'parse', [4]
     if kind not in TEMPLATES or not vals:
         return None
     src = TEMPLATES[kind]
@@ -126,8 +155,23 @@ def run_replay_program(kind, vals, repo):
             return None
         src = src.replace('{U64S}', ', '.join('%du64' % x for x in xs))
     else:
-        bs = [v for v in vals if len(v) >= 1]
-        src = src.replace('{BYTES}', ', '.join('vec![%s]' % ', '.join(str(b) for b in v) for v in bs))
+        # kani::any::<[u8; N]>() is played back one element at a time: runs of one-byte values form one buffer
+        bufs, cur = [], []
+        for v in vals:
+            if len(v) == 1:
+                cur.append(v[0])
+            else:
+                if cur:
+                    bufs.append(cur)
+                cur = []
+                if 1 < len(v) < 8:
+                    bufs.append(list(v))
+        if cur:
+            bufs.append(cur)
+        bufs = [prefix + b for b in bufs if b][:8]
+        if not bufs:
+            return None
+        src = src.replace('{BYTES}', ', '.join('vec![%s]' % ', '.join(str(b) for b in v) for v in bufs))
     d = tempfile.mkdtemp(prefix='verif_replay_')
     try:
         shutil.copytree(os.path.join(repo, 'lber'), os.path.join(d, 'lber'), ignore=shutil.ignore_patterns('target'))
